@@ -86,8 +86,10 @@ def numEntries (abs : Dict Str (List NumAttr)) : List Xml → Dict Str (List Num
     | none => numEntries abs ns d
     | some a =>
       (a.attrReq (lit "w") (lit "val")) >>= fun v =>
-      (abs.getM v) >>= fun ls =>
-      numEntries abs ns (d.set numId ls)
+      -- a reference to a definition that does not exist leaves THIS list undefined (`.get`, then `continue`)
+      match abs.get? v with
+      | none => numEntries abs ns d
+      | some ls => numEntries abs ns (d.set numId ls)
 
 /-- `collect_numAttrs(numFmts_root)` -/
 def collectNumAttrs (root : Xml) : M (Dict Str (List NumAttr)) :=
